@@ -168,9 +168,13 @@ class RemovedRefs(Monitor):
     types = all_col_types(post)
     bundle = json.loads(ctx.bundle)
     removal_only = all(a[0] in ('RemoveRecord', 'BulkRemoveRecord') for a in bundle)
+    # the statement is about DATA cells (a formula cell naming a removed row is C05's business)
+    tabs = {r: x['tableId'] for r, x in post['_grist_Tables']['rows'].items()}
+    formula_cols = set((tabs.get(c['parentId']), c['colId'])
+                       for c in post['_grist_Tables_column']['rows'].values() if unb(c['isFormula']))
     for tid, t in post.items():
       for cid, ty in types.get(tid, {}).items():
-        if cid not in t['cols'] or not ty.startswith(('Ref:', 'RefList:')):
+        if cid not in t['cols'] or not ty.startswith(('Ref:', 'RefList:')) or (tid, cid) in formula_cols:
           continue
         target = ty.split(':', 1)[1]
         gone = removed.get(target)
